@@ -8,31 +8,38 @@
 EXTENDS Integers, Sequences, FiniteSets, TLC, Json, IOUtils
 CONSTANT Dev
 Trace == ndJsonDeserialize(IOEnv.TRACE_FILE)
-VARIABLES l, cfg, emitted, procd, lastp, swaps, dead
-vars == <<l, cfg, emitted, procd, lastp, swaps, dead>>
+VARIABLES l, cfg, emitted, procd, lastp, swaps, dead, early
+vars == <<l, cfg, emitted, procd, lastp, swaps, dead, early>>
 
 Reject(code) == /\ PrintT(<<"REJECT", cfg.tr, l, code>>) /\ dead' = TRUE
-Init == l = 1 /\ cfg = [tr |-> -1] /\ emitted = {} /\ procd = {} /\ lastp = <<>> /\ swaps = 0 /\ dead = FALSE
+\* early = rows that were processed BEFORE a row of the same producer with a smaller number.  The recorded deviation
+\* ExpansionReordersRows is narrow: the consumer reads the buffer reference once per row, so per installed buffer (swap) it can
+\* take at most ONE row from the old buffer while that buffer is being migrated - at most one early row per swap.
+Init == l = 1 /\ cfg = [tr |-> -1] /\ emitted = {} /\ procd = {} /\ lastp = <<>> /\ swaps = 0 /\ dead = FALSE /\ early = {}
 Last(p) == LET hits == {i \in 1..Len(lastp) : lastp[i][1] = p} IN IF hits = {} THEN 0 ELSE lastp[CHOOSE i \in hits : TRUE][2]
 SetLast(p, n) == LET hits == {i \in 1..Len(lastp) : lastp[i][1] = p} IN
                  IF hits = {} THEN Append(lastp, <<p, n>>) ELSE [lastp EXCEPT ![CHOOSE i \in hits : TRUE] = <<p, n>>]
 Next ==
   /\ l <= Len(Trace) /\ l' = l + 1
   /\ LET e == Trace[l] IN
-     IF e.e = "reset" THEN cfg' = e /\ emitted' = {} /\ procd' = {} /\ lastp' = <<>> /\ swaps' = 0 /\ dead' = FALSE
-     ELSE IF dead THEN UNCHANGED <<cfg, emitted, procd, lastp, swaps, dead>>
+     IF e.e = "reset" THEN cfg' = e /\ emitted' = {} /\ procd' = {} /\ lastp' = <<>> /\ swaps' = 0 /\ dead' = FALSE /\ early' = {}
+     ELSE IF e.e = "proc" /\ ~dead /\ <<e.p, e.i>> \in emitted /\ <<e.p, e.i>> \notin procd /\ e.i < Last(e.p) THEN
+        \* a single producer's rows must be processed in emission order
+        \* (not in the "stalled" schedule: there the consumer is busy in the sink during every expansion and holds no old reference)
+        LET r == <<e.p, e.i>>
+            ne == early \cup {q \in procd : q[1] = e.p /\ q[2] > e.i} IN
+        IF "ExpansionReordersRows" \in Dev /\ cfg.strategy = "expand" /\ swaps > 0 /\ ~("strict" \in DOMAIN cfg /\ cfg.strict = 1)
+           /\ Cardinality(ne) <= swaps
+          THEN /\ PrintT(<<"DEV", cfg.tr, l, "ExpansionReordersRows">>) /\ procd' = procd \cup {r} /\ early' = ne /\ UNCHANGED <<cfg, emitted, lastp, swaps, dead>>
+          ELSE Reject("producer_order_violated") /\ UNCHANGED <<cfg, emitted, procd, lastp, swaps, early>>
+     ELSE early' = early /\
+     IF dead THEN UNCHANGED <<cfg, emitted, procd, lastp, swaps, dead>>
      ELSE IF e.e = "emit" THEN emitted' = emitted \cup {<<e.p, e.i>>} /\ UNCHANGED <<cfg, procd, lastp, swaps, dead>>
      ELSE IF e.e = "swap" THEN swaps' = swaps + 1 /\ UNCHANGED <<cfg, emitted, procd, lastp, dead>>
      ELSE IF e.e = "proc" THEN
         LET r == <<e.p, e.i>> IN
         IF r \notin emitted THEN Reject("processed_row_never_emitted") /\ UNCHANGED <<cfg, emitted, procd, lastp, swaps>>
         ELSE IF r \in procd THEN Reject("row_processed_twice") /\ UNCHANGED <<cfg, emitted, procd, lastp, swaps>>
-        ELSE IF e.i < Last(e.p) THEN
-             \* a single producer's rows must be processed in emission order
-             \* (not in the "stalled" schedule: there the consumer is busy in the sink during every expansion and holds no old reference)
-             IF "ExpansionReordersRows" \in Dev /\ cfg.strategy = "expand" /\ swaps > 0 /\ ~("strict" \in DOMAIN cfg /\ cfg.strict = 1)
-               THEN /\ PrintT(<<"DEV", cfg.tr, l, "ExpansionReordersRows">>) /\ procd' = procd \cup {r} /\ UNCHANGED <<cfg, emitted, lastp, swaps, dead>>
-               ELSE Reject("producer_order_violated") /\ UNCHANGED <<cfg, emitted, procd, lastp, swaps>>
         ELSE procd' = procd \cup {r} /\ lastp' = SetLast(e.p, e.i) /\ UNCHANGED <<cfg, emitted, swaps, dead>>
      ELSE IF e.e = "stats" THEN
         /\ IF e.quiet = 0 THEN Reject("never_quiescent_rows_lost")
